@@ -15,6 +15,8 @@ level container that is updated in place.
 Round 5 (hunt): path rule over Step: whenever Step returns with the solver
 possibly terminated, Finalize() has run since the last _Step - also when the
 solver is found terminated on entry (repair 9efed1e).
+Round 6: a replaced evaluation monitor receives the evaluations (staleness
+analysis); listify keeps a length-1 vector a list (shared with C20.h).
 NOT decided: call counts per iteration, equality of monitor
 contents with the real calls under non-default maps, monotonicity under
 non-idempotent constraints.
@@ -731,3 +733,10 @@ def a_replaced_evaluation_monitor_receives_the_evaluations(ctx):
         cls = ctx.cls(anchor)
         n, decoin = invalidate.check_class(ctx, key, cls, only_attrs={'_evalmon'}, label_prefix=key + ':')
         ctx.need('_evalmon' in decoin, '%s: the evaluation monitor is not captured by the decorator?' % cls.name)
+
+
+@rule('C04.q', min_instances=5)
+def monitors_record_the_vector_that_was_evaluated(ctx):
+    """the evaluation monitor holds exactly the (x, cost(x)) pairs and the step monitor the best x per generation: every Monitor stores listify(x), and listify gives back a LIST for every iterable - only a 0-d array is a scalar (a length-1 parameter vector unwrapped to a bare number is no longer the x the cost was called with); shared with C20.h"""
+    from .c20 import every_call_is_recorded_by_value
+    every_call_is_recorded_by_value(ctx)
